@@ -289,6 +289,25 @@ Proof.
   intros Hq1 Hcmd G Ho. apply run_cmd_spec; try assumption. now apply no_abort_clean.
 Qed.
 
+(* ---- the faithful variant: the guard of the shebang fallback as found in the source (fix 2639201: `not ext and ...`)
+   confines it to extensionless names, so the quirk flag is moot and the theorems need no hypothesis on it *)
+Lemma shebang_guard_confined : shebang_guard_any_ext = false.
+Proof. reflexivity. Qed.
+
+Lemma detect_flag_irrelevant q f : detect q f = detect ideal f.
+Proof. unfold detect, ideal. cbn [q_shebang_any_ext]. rewrite shebang_guard_confined, andb_false_r. reflexivity. Qed.
+
+Lemma run_cmd_flag_irrelevant q cmd c t f : run_cmd q cmd c t f = run_cmd ideal cmd c t f.
+Proof. unfold run_cmd. now rewrite (detect_flag_irrelevant q f). Qed.
+
+Lemma detect_spec_faithful q f : spec_class f = lang_class (detect q f).
+Proof. rewrite detect_flag_irrelevant. now apply detect_spec. Qed.
+
+Theorem run_cmd_exact_faithful q cmd c t f :
+  is_command cmd = true -> atab_good t = true -> cfg_clean c = true ->
+  run_cmd q cmd c t f = Ok (spec_out cmd t f).
+Proof. intros. rewrite run_cmd_flag_irrelevant. now apply run_cmd_exact. Qed.
+
 (* ================================================================== 5. corollaries named by the property *)
 
 (* only ids of the command's own linter are printed *)
@@ -326,6 +345,24 @@ Proof.
   rewrite (run_cmd_spec q cmd c t f Hq Hcmd G Hab) in Hrun. injection Hrun as <-.
   unfold spec_out in Hv. rewrite Hcl in Hv. apply in_flat_map in Hv as (r & Hr & Hv). exists r. split; [exact Hr|].
   unfold allowed in Hv. destruct (lookup (r_pkg r) doc_langs) as [[ls|]|]; [destruct Hv|reflexivity|destruct Hv].
+Qed.
+
+Theorem only_own_rules_faithful q cmd c t f vs v :
+  is_command cmd = true -> atab_good t = true ->
+  run_cmd q cmd c t f = Ok vs -> In v vs ->
+  exists r, In r rule_table /\ owns cmd (r_pkg r) (fst v) = true.
+Proof.
+  intros Hc G Hrun Hv. rewrite run_cmd_flag_irrelevant in Hrun.
+  now apply (only_own_rules ideal cmd c t f vs v).
+Qed.
+
+Theorem unrecognised_yields_nothing_faithful q cmd c t f vs :
+  is_command cmd = true -> atab_good t = true ->
+  spec_class f = LOther -> run_cmd q cmd c t f = Ok vs ->
+  forall v, In v vs -> exists r, In r rule_table /\ lookup (r_pkg r) doc_langs = Some None.
+Proof.
+  intros Hc G Hcl Hrun. rewrite run_cmd_flag_irrelevant in Hrun.
+  now apply (unrecognised_yields_nothing ideal cmd c t f vs).
 Qed.
 
 (* configuring other linters never changes a command's result: within the domain the configuration does not
